@@ -5,6 +5,8 @@ import CogentModel.Spec.FeatureView
 import CogentModel.Proofs.ViewInv
 import CogentModel.Proofs.FeatureView
 import CogentModel.Proofs.FeatureOnView
+import CogentModel.Model.FeatureProject
+import CogentModel.Proofs.FeatureProject
 /-! # C04 — annotations keep denoting the same residues through every view
 
 The model mirrors `make_feature` as it is since commit 11fcfbb18 (spans that only touch a view
@@ -144,5 +146,29 @@ theorem complement_iff_minus (L : Int) (rced minus : Bool) (spans : List (Int ×
         subst h; cases minus <;> rfl
 
 example : (makeFeature 5 true true [(1, 3)]) = .ok { spans := [.span 2 4], reversed := false } := by decide
+
+/-- **projection_denotes.**  `Aligned.make_feature` projects a sequence feature onto the alignment
+through `inverted[feature.map]` with `inverted = aligned_map.to_feature_map().inverse()`.  For any
+aligned row `A` (one map position per alignment column: a sequence position, or lost for a gap;
+ordered, inside the sequence) and any sequence feature map `fm` whose residues are all present in
+the row: the projection never fails, its parent is the alignment (`len A` columns), and its `j`-th
+position is the alignment column `k` that holds exactly the residue `p` which the sequence feature
+has at its `j`-th position — for multi-span and reversed features alike, with gaps inside or
+between the spans.  (C08's `FeatureMap` model: `inverse_is_converse`, `getitem_is_composition`.) -/
+theorem projection_denotes (A fm : FMap.FM) (hA : FMap.SortedFwd A) (hpl : 0 < A.parentLength)
+    (hfm : ∀ x ∈ fm.spans, x.idxIn A.parentLength)
+    (hcov : ∀ (j : Nat) (p : Int), (FMap.cover fm)[j]? = some (some p) → ∃ k : Nat, (FMap.cover A)[k]? = some (some p)) :
+    ∃ r, FMap.project A fm = .ok r ∧ r.parentLength = FMap.len A ∧
+      ∀ (j : Nat) (p : Int), (FMap.cover fm)[j]? = some (some p) →
+        ∃ k : Nat, (FMap.cover r)[j]? = some (some (k : Int)) ∧ (FMap.cover A)[k]? = some (some p) :=
+  FMap.project_denotes A fm hA hpl hfm hcov
+
+-- row `AC--GT-A` (sequence ACGTA), feature spans (1,3),(4,5) read reversed: columns of C,G and of the last A
+example :
+    let A : FMap.FM := ⟨[.span 0 2 false, .lost 2, .span 2 4 false, .lost 1, .span 4 5 false], 5⟩
+    let fm : FMap.FM := ⟨[.span 4 5 true, .span 1 3 true], 5⟩
+    FMap.SortedFwd A ∧ (∀ x ∈ fm.spans, x.idxIn A.parentLength) ∧
+    (FMap.project A fm).toOption.map FMap.cover = some [some 7, some 4, some 1] := by
+  decide
 
 end CogentModel.C04
